@@ -241,6 +241,20 @@ def check_helpers(K, with_sid, with_pi, flags, ids, rec: Recorder, node, apps):
         if [a.as_tuple() for a in R.parse_message(req.as_bytes(), R.dict_is_grouped)[1]] != \
                 [a.as_tuple() for a in req_tree]:
             rec.violation(f"C20/helper/request-mutated/{how}", dict(case, how=how), "")
+        # ... nor be altered by what the application then does to its answer: Proxy-Info is *copied* (the application
+        # completing or trimming the answer's list works on the answer)
+        if has_pi and isinstance(getattr(ans, "proxy_info", None), list) and ans.proxy_info:
+            try:
+                ans.proxy_info.pop()
+                ans.proxy_info.append(ProxyInfo(proxy_host=b"p9.example", proxy_state=b"\x09"))
+                after = R.parse_message(req.as_bytes(), R.dict_is_grouped)[1]
+            except Exception as e:
+                rec.violation(f"C20/helper-raises/answer-edit/{type(e).__name__}", dict(case, how=how), repr(e))
+                after = None
+            rec.cls("helper:answer-proxy-info-edited")
+            if after is not None and [a.as_tuple() for a in after] != [a.as_tuple() for a in req_tree]:
+                rec.violation(f"C20/helper/request-shares-proxy-info/{how}", dict(case, how=how),
+                              "editing the answer's Proxy-Info list changed the request's encoding: the list object is shared")
         rec.case(fp("h", K.__name__, with_sid, with_pi, flags, ids, how) if (has_sid or has_pi) else None,
                  [f"helper:{how}", f"helper:sid={has_sid}", f"helper:pi={has_pi}"],
                  sample=lambda: dict(case, how=how, answer=out.hex()[:160]))
@@ -393,7 +407,7 @@ def run(tier, scale=1.0):
     rec = Recorder(PID)
     for d in hyp.pool_run(shard_main, (tier, scale)):
         rec.merge(d)
-    required = {"helper:proxy-info-with-extra-member": 1, "wire:zero-hbh": 1, "wire:zero-e2e": 1, "wire:CER": 1, "wire:DPR": 1, "wire:REQ": 1, "wire:REQ-unknown-app": 1,
+    required = {"helper:proxy-info-with-extra-member": 1, "helper:answer-proxy-info-edited": 1, "wire:zero-hbh": 1, "wire:zero-e2e": 1, "wire:CER": 1, "wire:DPR": 1, "wire:REQ": 1, "wire:REQ-unknown-app": 1,
                 "wire:REQ-incomplete": 1, "wire:REQ-handler-raises": 1, "wire:REQ-threading": 1, "kind:typed": 1, "kind:generic": 1, "req-class": 1, "non-req-class": 1,
                 "helper:node": 1, "helper:app-auth": 1, "helper:sid=True": 1, "helper:pi=True": 1}
     return finish(rec, tier=tier, level="exploration", rule=RULE, assumptions=ASSUME, t0=t0,
